@@ -164,6 +164,7 @@ Qed.
 (* a list method: a QueryRequest among the request properties, one array of object references in
    the response. The client stage accepts it and attaches the walked paths. *)
 Theorem list_method_total (im : image) sub svc (m : src_method) req resp root :
+  flat_free (im_schemas im) ->
   all_refs_link (im_schemas im) = true ->
   lookup (im_schemas im) (sub_pkg im sub, sm_req m) = Some (SObject req) ->
   str_eqb (sm_resp m) HTTPBODY_SHORT = false ->
@@ -175,7 +176,7 @@ Theorem list_method_total (im : image) sub svc (m : src_method) req resp root :
     Ok {| cm_service := svc; cm_name := sm_name m; cm_verb := sm_verb m; cm_path := sm_path m;
           cm_req := fill_request (sm_verb m) (sm_path m) req; cm_resp := Some resp; cm_list := Some paths |}.
 Proof.
-  intros Hl Lreq Hnb Lresp Hq Hroot.
+  intros Hff Hl Lreq Hnb Lresp Hq Hroot.
   assert (Hp : present (im_schemas im) root).
   { (* the root is the item type of the response's array: a successor of the response schema *)
     unfold list_root in Hroot. destruct (array_props resp) as [|i [|i2 r]] eqn:Ea; try discriminate.
@@ -189,7 +190,7 @@ Proof.
     destruct Hi as [Hi|[]]. subst i0. cbn [ref_of]. left. reflexivity. }
   destruct (list_walk_total (im_schemas im) root Hl Hp) as [paths Ew]. exists paths. split; [exact Ew|].
   unfold method_from_source, object_props. rewrite Lreq. cbn [obind]. rewrite Hnb, Lresp. cbn [obind omap].
-  rewrite Hq, Hroot. cbn [obind]. rewrite Ew. reflexivity.
+  rewrite Hq, Hroot. cbn [obind]. rewrite (proj1 (cenv_noflat _ Hff)). rewrite Ew. reflexivity.
 Qed.
 
 (* ---------- the request / response messages of a method are found ----------------- *)
@@ -235,12 +236,13 @@ Qed.
 (* ---------- one method through the client stage -------------------------------------- *)
 Lemma method_from_source_declared (P : decl_package) svc d :
   In d (all_methods P) -> NoDup (map df_name (all_methods P)) ->
+  flat_free (im_schemas (compile_image to_snake P)) ->
   all_refs_link (im_schemas (compile_image to_snake P)) = true ->
   (is_query_request (df_req d) = true -> exists root, list_root (df_resp d) = Ok root) ->
   method_from_source true (compile_image to_snake P) SERVICE (svc ++ bytes_of "Service") (declared_src (df_decl d))
   = Ok (declared_client (im_schemas (compile_image to_snake P)) svc d).
 Proof.
-  intros Hin Hnd Hl Hq.
+  intros Hin Hnd Hff Hl Hq.
   destruct (lookup_method (dp_pkg P) (all_methods P) (dp_schemas P) d Hin Hnd) as [L1 L2].
   destruct (is_query_request (df_req d)) eqn:Eq.
   - (* a list method *)
@@ -254,7 +256,7 @@ Proof.
                    (sub_pkg (compile_image to_snake P) SERVICE, sm_resp (declared_src (df_decl d))) = Some (SObject ps)).
     { cbn [declared_src df_decl sm_resp dm_raw dm_name]. rewrite Er. exact (L2 ps eq_refl). }
     destruct (list_method_total (compile_image to_snake P) SERVICE (svc ++ bytes_of "Service") (declared_src (df_decl d))
-                (df_req d) ps root Hl Lq Hnb Lr Eq Hroot) as (paths & Ew & Em).
+                (df_req d) ps root Hff Hl Lq Hnb Lr Eq Hroot) as (paths & Ew & Em).
     rewrite Em. unfold declared_client, declared_list. rewrite Eq, Er, Hroot, Ew.
     cbn [declared_src df_decl sm_name sm_verb sm_path dm_name dm_verb]. unfold decl_path. cbn [dm_parts]. reflexivity.
   - unfold method_from_source.
@@ -312,7 +314,7 @@ Qed.
 Lemma methods_declared P : valid_package to_snake P ->
   methods_from_source true (compile_image to_snake P) (declared_api P) = Ok (declared_clients to_snake P).
 Proof.
-  intros (_ & Hnd & Hq & Hl & _). unfold methods_from_source. rewrite Hl. cbn [negb].
+  intros (_ & Hnd & Hq & Hl & _ & Hff). unfold methods_from_source. rewrite Hl. cbn [negb].
   fold (compile_image to_snake P).
   unfold declared_api. cbn [sa_services]. unfold decl_services. rewrite map_map, omapM_map.
   rewrite (omapM_ok _ (fun s => map (declared_client (im_schemas (compile_image to_snake P)) (fst s)) (snd s))).
@@ -323,6 +325,7 @@ Proof.
     apply method_from_source_declared.
     + eapply in_all_methods; eassumption.
     + exact Hnd.
+    + exact Hff.
     + exact Hl.
     + rewrite Forall_forall in Hq. apply Hq. eapply in_all_methods; eassumption.
 Qed.
@@ -394,14 +397,16 @@ Theorem chain_full : forall P, valid_package to_snake P ->
     /\ cr_swagger r = Ok tt.
 Proof.
   intros P Hv. cbv zeta. unfold run_chain, run_client. cbn [cr_source cr_client cr_swagger current_config cc_walk_guard cc_arms cc_resp_guard].
-  rewrite (source_declared to_snake P Hv). cbn [obind].
+  assert (Hff : flat_free (im_schemas (compile_image to_snake P))) by (destruct Hv as (_ & _ & _ & _ & _ & H); exact H).
+  destruct (cenv_noflat _ Hff) as [Ec Ece].
+  rewrite (source_declared to_snake P Hv). cbn [obind]. rewrite Ece, Ec.
   rewrite (methods_declared to_snake P Hv). cbn [obind].
   assert (Hroots : forall k, In k (flat_map method_roots (declared_clients to_snake P)) -> present (image_env P) k).
   { intros k Hk. apply in_flat_map in Hk as [m [Hm Hk]]. unfold declared_clients in Hm.
     apply in_flat_map in Hm as [s [Hs Hm]]. apply in_map_iff in Hm as [d [<- Hd]].
     destruct (declared_method_facts P s d Hv Hs Hd) as [H _]. apply H. exact Hk. }
   assert (Hl : all_refs_link (image_env P) = true) by (destruct Hv as (_ & _ & _ & H & _); exact H).
-  unfold collect_refs. cbn [compile_image im_roots im_pkg]. unfold root_refs. cbn [flat_map app].
+  unfold collect_refs. rewrite Ec. cbn [compile_image im_roots im_pkg]. unfold root_refs. cbn [flat_map app].
   fold (image_env P).
   destruct (walk_refs_ok (image_env P) [dp_pkg P] _ Hl Hroots) as [ks Eks].
   change (im_schemas (compile_image to_snake P)) with (image_env P).
